@@ -60,14 +60,21 @@ def handle : Driver.Handler := fun op j =>
     let parts ← Driver.get? (List (List String)) j "parts"
     let slices ← (← Driver.get? (List (List Nat)) j "slices").mapM pairOf
     let items ← Driver.get? (List Nat) j "items"
-    let bparts : List (List Bytes) := parts.map (fun p => p.map (fun s => s.toUTF8.data.toList))
+    let enc : List (List String) → List (List Bytes) := fun ps => ps.map (fun p => p.map (fun s => s.toUTF8.data.toList))
+    let bparts : List (List Bytes) := enc parts
+    -- optional history: several write_part…complete rounds, with or without a new writer object per round
+    let rounds : Option (List (List (List String))) := (j.getObjValAs? (List (List (List String))) "rounds").toOption
+    let rewrap : Bool := (j.getObjValAs? Bool "rewrap").toOption.getD false
+    let run : Except Err WState := match rounds with
+      | some rs => writeRounds (variantOf j) c h5 rewrap (rs.map enc)
+      | none => writeField (variantOf j) c h5 bparts
     pure <| Driver.outE (fun (s : WState) =>
       let ix := s.indices.contents
       let vals := s.values.contents
       Json.mkObj [("indices", Driver.nats ix), ("values", Json.str (hex vals)), ("len", toJson (fieldLen ix)),
                   ("staged", Driver.nats [s.valueIndex, s.indexIndex]),
                   ("w", readsJson true ix vals slices items), ("ro", readsJson false ix vals slices items)])
-      (writeField (variantOf j) c h5 bparts)
+      run
   | "c01_plain" => some do
     let h5 ← Driver.get? Bool j "h5"
     let kind ← Driver.get? String j "kind"
